@@ -68,7 +68,7 @@ Theorem C01_fix_step_restores :
     (forall j f idx b, slot_of c pos j = SFile f idx b ->
        (0 < block_len bs (cf_size f) idx)%N
        /\ (forall g, fs_find (r_fs s) j (cf_name f) = Some g -> (ff_size g <= cf_size f)%N)
-       /\ (co_fix o = true \/ fl_missing (get_fl (r_flags s) (j, cf_name f)) = false)) ->
+       /\ (co_fix o = true \/ fl_missing (get_fl (r_flags s) (j, cf_name f)) = false \/ fs_find (r_fs s) j (cf_name f) = None)) ->
     enc_ok hashf bs c pos v ->
     (forall j f idx b, slot_of c pos j = SFile f idx b -> pad_ok padz bs (vnth v j) (block_len bs (cf_size f) idx) = true) ->
     (forall j f idx b y, slot_of c pos j = SFile f idx b -> read_block bs s j f idx = Some y -> hash_ok hashf bs f idx b y = true -> y = vnth v j) ->
@@ -100,7 +100,7 @@ Theorem C01_fix_then_check_quiet :
     (forall j f idx b, slot_of c pos j = SFile f idx b ->
        (0 < block_len bs (cf_size f) idx)%N
        /\ (forall g, fs_find (r_fs s) j (cf_name f) = Some g -> (ff_size g <= cf_size f)%N)
-       /\ (co_fix o = true \/ fl_missing (get_fl (r_flags s) (j, cf_name f)) = false)) ->
+       /\ (co_fix o = true \/ fl_missing (get_fl (r_flags s) (j, cf_name f)) = false \/ fs_find (r_fs s) j (cf_name f) = None)) ->
     enc_ok hashf bs c pos v ->
     (forall j f idx b, slot_of c pos j = SFile f idx b -> pad_ok padz bs (vnth v j) (block_len bs (cf_size f) idx) = true) ->
     (forall j f idx b y, slot_of c pos j = SFile f idx b -> read_block bs s j f idx = Some y -> hash_ok hashf bs f idx b y = true -> y = vnth v j) ->
